@@ -21,7 +21,8 @@ REQUIRED_THEOREMS = [
     "subdivide_sum", "subdivide_pos", "subdivide_balanced", "subdivide_contract", "contractB_iff", "balancedB_iff",
     "linCut_exact", "subdivideLin_exact", "subdivideLin_contract", "cut_at_integer_point", "subdivide_robust",
     "slices_tile", "slices_tile_nd", "boxes_cover", "boxes_disjoint", "box_in_array", "id_idx_bijection",
-    "bounds_tile", "subgrid_spacing", "cell_coords_agree", "volumes_add_up", "volumes_add_up_nd",
+    "bounds_tile", "subgrid_spacing", "cell_coords_agree", "cell_edges_agree", "cell_volumes_agree", "volumes_add_up",
+    "volumes_add_up_nd", "volumes_add_up_gen", "volCoef_eq_volGen", "volumes_add_up_cylinder",
     "combine_extract_id", "combine_extract_id_list", "extract_combine_id", "extract_combine_id_consistent",
     "combineUpTo_spec", "neighbor_symmetric", "neighbor_none_iff", "neighbor_respects_periodicity",
     "neighbor_adjacent", "neighbor_lt_len", "flags_match", "get?_extract_ghost", "operator_commutes_with_split",
@@ -212,6 +213,8 @@ def _mesh_worker(spec, obs):
     obs["sub_periodic"] = [[bool(p) for p in g.periodic] for g in subs]
     obs["sub_coords"] = [[[float(x) for x in c] for c in g.axes_coords] for g in subs]
     obs["sub_volume"] = [float(g.volume) for g in subs]
+    obs["sub_cell_volume_data"] = [[[float(x) for x in np.broadcast_to(np.asarray(v, dtype=float), (n_,))]
+                                    for v, n_ in zip(g.cell_volume_data, g.shape)] for g in subs]
     obs["sub_class_ok"] = all(isinstance(g, type(grid)) or isinstance(grid, type(g)) for g in subs)
     obs["sub_mesh_ok"] = all(g._mesh is mesh for g in subs)
     obs["base_mesh_none"] = grid._mesh is None
@@ -1173,7 +1176,7 @@ def op_for(rng, fam):
 def gen_op_specs(ctx):
     rng = ctx.rng
     specs = []
-    n = ctx.budget(230, 4000)
+    n = ctx.budget(230, 3000)
     for i in range(n):
         fam = rng.choice(["cart1", "cart2", "cart2", "cart3", "sph", "polar", "cyl", "cyl"])
         if fam.startswith("cart"):
@@ -1204,7 +1207,7 @@ def gen_op_specs(ctx):
         specs.append(sp)
     # anti-periodic seams: a periodic axis that IS split carries an anti-periodic condition (every rank,
     # 2 chunks = the same neighbour on both sides, 3+ chunks = interior faces that must not flip)
-    for _ in range(ctx.budget(36, 400)):
+    for _ in range(ctx.budget(36, 300)):
         fam = rng.choice(["cart1", "cart2", "cart2", "cart3", "cyl"])
         if fam == "cyl":
             nr, nz = rng.randint(1, 4), rng.randint(2, 8)
@@ -1462,6 +1465,19 @@ def compare_mesh(ctx, spec, obs, ans):
                     not abs(x - y) <= 1e-12 * scale for c, r in zip(mc, rc) for x, y in zip(c, r)):
                 bad.append((f"sub_coords[{i}]", mc, rc))
                 break
+            # per-axis cell volumes from the model's cell edges: F(edge p+1) - F(edge p)
+            if "sub_cell_volume_data" in obs:
+                for ax, (edges, real) in enumerate(zip(rec["edges"], obs["sub_cell_volume_data"][i])):
+                    ex = [unq(x) for x in edges]
+                    if kind == "spherical":
+                        mvol = [4 * math.pi / 3 * float(b_ ** 3 - a_ ** 3) for a_, b_ in zip(ex, ex[1:])]
+                    elif kind in ("polar", "cylindrical") and ax == 0:
+                        mvol = [math.pi * float(b_ ** 2 - a_ ** 2) for a_, b_ in zip(ex, ex[1:])]
+                    else:
+                        mvol = [float(b_ - a_) for a_, b_ in zip(ex, ex[1:])]
+                    if len(mvol) != len(real) or any(not abs(x - y) <= 1e-11 * max(abs(x), 1e-12 * scale) for x, y in zip(mvol, real)):
+                        bad.append((f"cell_volume_data[{i}][axis {ax}]", mvol, real))
+                        break
             mv = vol_from_coef(kind, float(unq(rec["vol"])))
             if not abs(mv - obs["sub_volume"][i]) <= 1e-11 * abs(mv):
                 bad.append((f"sub_volume[{i}]", mv, obs["sub_volume"][i]))
